@@ -5,6 +5,9 @@ package limits
 import (
 	"errors"
 	"fmt"
+	"os"
+	"os/exec"
+	"strings"
 	"sync"
 	"sync/atomic"
 	"testing"
@@ -266,6 +269,42 @@ func pcParallel(t *testing.T, vs *vset, pr uint, seq []int, names []string, bloc
 	})
 }
 
+// TestC17CacheCrashProbe is run by TestC17Cache in a child process: the minimal history that re-arms the
+// expiry timer of an item dropped by Clear, followed by the TTL. On the defective tree the child dies with
+// an index-out-of-range panic raised in the timer goroutine (nothing in-process can recover that).
+func TestC17CacheCrashProbe(t *testing.T) {
+	if os.Getenv("VERIF_C17_CACHE_PROBE") == "" {
+		t.Skip("child-process probe")
+	}
+	metrics.UseNilMetrics = true
+	synctest.Test(t, func(t *testing.T) {
+		c := piececache.New(3, pcTTL, 1)
+		ld := func() ([]byte, error) { return []byte{1, 2}, nil }
+		h := c.VerifC17GetItem("k0") // first half of a concurrent Get
+		c.Get("k0", ld)              // another caller loads and caches the item
+		c.Clear()                    // session shutdown drops everything
+		c.VerifC17GetValue(h, ld)    // second half: hit path, timer re-armed
+		time.Sleep(2 * pcTTL)
+		synctest.Wait()
+	})
+	fmt.Println("PROBE-SURVIVED")
+}
+
+func cacheCrashProbe() (crashed bool, firstLine string) {
+	cmd := exec.Command(os.Args[0], "-test.run", "^TestC17CacheCrashProbe$", "-test.timeout", "60s")
+	cmd.Env = append(os.Environ(), "VERIF_C17_CACHE_PROBE=1")
+	out, err := cmd.CombinedOutput()
+	if err == nil || strings.Contains(string(out), "PROBE-SURVIVED") {
+		return false, ""
+	}
+	for _, ln := range strings.Split(string(out), "\n") {
+		if strings.HasPrefix(ln, "panic:") {
+			return true, ln
+		}
+	}
+	return true, "child exited: " + err.Error()
+}
+
 func TestC17Cache(t *testing.T) {
 	logger.Disable()
 	metrics.UseNilMetrics = true // the meters' global ticker goroutine must not be born inside a bubble
@@ -358,6 +397,11 @@ func TestC17Cache(t *testing.T) {
 	rep.Extra["cache_sequences_cut_at_stale_timer"] = st.poisoned
 	rep.Extra["cache_parallel_sequences"] = pruns
 	rep.Extra["cache_parallel_steps_with_waiting_loader"] = blocked
+	if st.poisoned > 0 {
+		crashed, line := cacheCrashProbe()
+		rep.Extra["cache_stale_timer_child_process_crashed"] = crashed
+		rep.Extra["cache_stale_timer_child_process_panic"] = line
+	}
 	if st.loads == 0 || st.hits == 0 || st.expirySteps == 0 || st.atMax == 0 || blocked == 0 {
 		core.HarnessError("vacuous cache run: %+v blocked=%d", st, blocked)
 	}
